@@ -35,13 +35,18 @@ somePar   0   1.5   0.1
 D0{K*(892)bar0{K-,pi+},rho(1450)0{pi+,pi-}}   0 0.642781 0.00570074   0 1.69828 0.00900026
 D0{a(1)(1260)+{omega(782)0{pi+,pi-},pi+},K-}   0 0.3 0.01   0 0.2 0.01
 """,
+    # rejected: the option is applied, then a resonance name unknown to the particle table is met
+    "fE": """EventType D0 K- pi+ pi+ pi-
+FastCoherentSum::UseCartesian 1
+D0{K*(892)bar0{K-,pi+},rho(707)0{pi+,pi-}}   0 0.3 0.01   0 1.1 0.01
+""",
 }
 
 
 # abstract resonance names of AmpSession.tla -> (AmpGen name, PDG id); first mother line numbers of each file
 RES = {"r1": ("K*(892)bar0", -313), "r2": ("rho(770)0", 113), "r3": ("a(1)(1260)+", 20213), "r4": ("K(1)(1270)bar-", -10323),
        "r5": ("rho(1450)0", 100113), "r6": ("KPi00", 998111), "r7": ("PiPi00", 998101), "r8": ("omega(782)0", 223)}
-FIRST = {"fA": (0.196037, -0.390311), "fB": (0.813449, -2.60325), "fC": (0.361958, 1.99329), "fD": (0.642781, 1.69828)}
+FIRST = {"fA": (0.196037, -0.390311), "fB": (0.813449, -2.60325), "fC": (0.361958, 1.99329), "fD": (0.642781, 1.69828), "fE": (0.3, 1.1)}
 
 
 def prog_names():
@@ -59,7 +64,7 @@ def project(cls, f, res, pn):
     """-> event of AmpSession trace mode"""
     import cmath
     import re
-    ev = {"cls": cls, "f": f, "declared": ["n/a"], "coupling": "n/a"}
+    ev = {"cls": cls, "f": f, "declared": ["n/a"], "coupling": "n/a", "rejected": res["kind"] == "error"}
     a, b = FIRST[f]
     amp = None
     if res["kind"] == "read":
@@ -112,13 +117,13 @@ def run(tier, seed, replay_path=None):
     wd = tlc.new_workdir("c20")
     tmp = Path(tempfile.mkdtemp(prefix="c20-", dir=wd))
     try:
-        for v, expect in (("per_read", False), ("accumulating", True)):
+        for v, expect in (("per_read", False), ("accumulating", True), ("no_restore_when_rejected", True)):
             r = tlc.run("AmpSession", tlc.cfg_text(constants=dict(Variant=v, MaxLen=4, EmitMode="none"),
                                                    invariants=["HistoryIndependent"], view="AbsView"), workdir=wd, keep_records=False)
-            o.add_tlc(r, f"AmpSession variant {v}: HistoryIndependent over all histories of <= 4 calls (3 classes x 4 files)",
+            o.add_tlc(r, f"AmpSession variant {v}: HistoryIndependent over all histories of <= 4 calls (3 classes x 5 files)",
                       expect_violation=expect)
             if expect and "HistoryIndependent" not in r.violated:
-                raise Machinery("accumulating class state not refuted")
+                raise Machinery(f"variant {v} not refuted")
             if not expect and r.violated:
                 o.violate("spec-invariant", {"violated": r.violated}, r.stdout_path)
         rr = tlc.run("AmpSession", tlc.cfg_text(constants=dict(Variant="per_read", MaxLen=2, EmitMode="none"), invariants=["NeverOverlap"]),
@@ -141,6 +146,10 @@ def run(tier, seed, replay_path=None):
         nh = 160 if deep else 14
         # histories that put a cartesian file / overlapping resonances before another file first
         chosen = rng.sample(hists2, min(len(hists2), nh // 2)) + rng.sample(hists, min(len(hists), nh - nh // 2))
+        # always among them: a file that sets the option (fB) or sets it and is rejected (fE), followed by a file without it
+        cl = ["base", "cpp", "py"]
+        c1, c2, c3 = rng.choice(cl), rng.choice(cl[1:]), rng.choice(cl)
+        chosen += [[("base", "fE"), (c1, "fA")], [(c2, "fE"), (c2, "fD")], [(c3, "fB"), (c3, "fA")], [(c2, "fE"), (c2, "fB"), (c2, "fA")]]
         if replay_path:
             chosen = [[tuple(x) for x in json.load(open(replay_path))["case"]["history"]]]
         seeds = list(range(8 if deep else 3))
@@ -197,8 +206,8 @@ def run(tier, seed, replay_path=None):
                           {"history": [[c, Path(p).stem] for c, p in calls]}, {})
         o.notes.update(histories_run=len(chosen), single_calls=len(singles), hash_seeds=seeds, fresh_interpreters=len(results))
         o.sample({"history": [list(x) for x in chosen[0]], "files": TEXTS})
-        o.rule = ("histories of 2 and 3 read/convert calls (3 reader classes x 4 files with disjoint / overlapping resonances, the "
-                  "cartesian option absent / 0 / 1) emitted by TLC from AmpSession.tla, a sample executed each in its own fresh "
+        o.rule = ("histories of 2 and 3 read/convert calls (3 reader classes x 5 files with disjoint / overlapping resonances, the "
+                  "cartesian option absent / 0 / 1, one file that is rejected after its option was applied) emitted by TLC from AmpSession.tla, a sample executed each in its own fresh "
                   "interpreter; every call's result compared with the same single call in a fresh interpreter; single calls "
                   "repeated under several PYTHONHASHSEED values; a subset of histories run twice for exact reproduction; "
                   "distinct = distinct histories")
